@@ -1,5 +1,6 @@
 import MoneroModel.Proofs.Group
 import MoneroModel.Proofs.GroupInstance
+import MoneroModel.Proofs.EdwardsLawful
 /-! C09 — "Recovered one-time secret key matches the output's one-time public key".
 About the model `Monero.recoverKey` (Model/Crypto.lean: `KeyRecoverer::{new, recover}` with `get_spend_secret_key`) and
 the by-the-book sender `Spec.Sender`. For every additive commutative group and every lawful `ops` (Proofs/Group.lean).
@@ -63,4 +64,24 @@ theorem C09_recover_pub_subaddress (L : Lawful ops) (v s r : ℕ) (S : P) (hS : 
 /-- the recovered key is a reduced scalar (a valid `PrivateKey`) -/
 theorem C09_recover_reduced (L : Lawful ops) (v s : ℕ) (R : P) (n i j : ℕ) : recoverKey ops v s R n i j < ops.l :=
   Nat.mod_lt _ L.l_pos
+
+/-! ### Ed25519 itself: `Lawful` is a theorem, not an assumption
+
+`Proofs/EdwardsGroup.lean` proves that the affine twisted Edwards curve −x² + y² = 1 + d·x²·y² over GF(2^255 − 19) with the
+complete addition law is an abelian group (d is a non-square, −1 a square; associativity by explicit polynomial
+certificates); `Proofs/EdwardsRef*.lean` that the executable reference arithmetic `Ref/Ed25519.lean` (extended coordinates,
+double-and-add, RFC 8032 compression) computes in that group; `Proofs/EdwardsLawful.lean` that the resulting primitives
+record `edOps` (points = curve points, `l·G = 0`, injective encoding accepted by `dec`) is `Lawful`, and that the instance
+the compiled driver runs (`Drv.refOps`) refines it operation by operation. The theorems below are the theorems of this
+file with that instance plugged in: no hypothesis about the group is left. (That curve25519-dalek computes the same
+functions as `Ref/Ed25519.lean` remains a differential tie — dalek is a dependency.) -/
+section Ed25519
+open Monero.Edw
+
+theorem C09_ed25519_lawful : Lawful edOps ∧ RefinesEd Drv.refOps := ⟨edOps_lawful, refOps_refines_edOps⟩
+theorem C09_recover_value_ed25519 : type_of% (@C09_recover_value EdPoint _ edOps edOps_lawful) := C09_recover_value edOps_lawful
+theorem C09_recover_matches_scan_ed25519 : type_of% (@C09_recover_matches_scan EdPoint _ edOps edOps_lawful) :=
+  C09_recover_matches_scan edOps_lawful
+theorem C09_recover_pub_ed25519 : type_of% (@C09_recover_pub EdPoint _ edOps edOps_lawful) := C09_recover_pub edOps_lawful
+end Ed25519
 end C09
